@@ -12,7 +12,7 @@ Notation clit := SatCoreBase.lit.
 Lemma ov_contract : theory_contract no_theory ov_thp ov_thc.
 Proof.
   split.
-  - intros s p _ _. unfold th_result_ok, ov_thp. simpl. split. constructor. intros; discriminate.
+  - intros s p _ _ _. unfold th_result_ok, ov_thp. simpl. split. constructor. intros; discriminate.
   - intros s _. unfold th_result_ok, ov_thc. simpl. split; auto. split. constructor. intros; discriminate.
 Qed.
 Lemma ov_quiet_p : forall ts a dl p, snd (fst (ov_thp ts a dl p)) = [] /\ snd (ov_thp ts a dl p) = None.
